@@ -106,6 +106,18 @@ Definition b_from_atom (a : latom) (expected : string) : bool :=
     (flat_map (fun f1 => flat_map (fun f2 => flat_map (fun f3 => flat_map (fun f4 => map (fun f5 =>
        let q := from_atom a f1 f2 f3 f4 f5 in (show_qatom q ++ show_match (match_atom q a))%string)
      bools2) bools2) bools2) bools2) bools2)) expected.
+Close Scope string_scope.
+(* the query API: _validate(value, prop) as the neighbors / heteroatoms / implicit_hydrogens setters call it with None, a bare
+   int or a list / tuple (Query.validate_hyb and Query.validate_rings are the hybridization and ring_sizes setters) *)
+Definition validate_api (lo hi : Z) (o : option ival) : pyres (list Z) :=
+  match o with
+  | None => Ok []
+  | Some (IInt v) => if (v <? lo) || (hi <? v) then Err ValueError else Ok [v]
+  | Some (IList l) => validate_list lo hi l
+  end.
+Definition b_api (kind : Z) (vals : list (option ival)) :=
+  batch (fun o => show_res show_zs (if kind =? 0 then validate_api 0 14 o else if kind =? 1 then validate_hyb o else validate_rings o)) vals.
+Open Scope string_scope.
 (* sparse form: the positions (0-based) of the atoms that match, and of those on which the comparison raises *)
 Fixpoint positions {A} (f : A -> bool) (l : list A) (i : Z) : list Z :=
   match l with [] => [] | x :: r => if f x then i :: positions f r (i + 1)%Z else positions f r (i + 1)%Z end.
